@@ -328,6 +328,12 @@ class Case:
             # an expression that mentions an unexported identifier of the package it is written in
             self.hidden.setdefault(frompkg, []).append((l['name'], self.gotype(l['out'], frompkg, used), self.valexpr(l['out'], 'V:' + l['name'], frompkg, used)))
             return 'wire.Value(hidden%s)' % l['name']
+        if k == 'value' and (l.get('expr') or '').startswith('@var:'):
+            # the value is an exported variable of the package the item is written in: the same expression text in two packages
+            vn = l['expr'][5:]
+            if not any(h[0] == '@' + vn for h in self.hidden.get(frompkg, [])):
+                self.hidden.setdefault(frompkg, []).append(('@' + vn, self.gotype(l['out'], frompkg, used), self.valexpr(l['out'], 'V:' + l['name'], frompkg, used)))
+            return 'wire.Value(%s)' % vn
         if k == 'value':
             e = l['expr'] or self.valexpr(l['out'], 'V:' + l['name'], frompkg, used)
             if l.get('alias'):
@@ -364,7 +370,7 @@ class Case:
         for g, lst in groups.items():
             body.append('var %s = %s\n' % (', '.join(n for n, _ in lst), ', '.join(i for _, i in lst)))
         for (hn, hty, hexpr) in self.hidden.get(pkg, []):
-            body.append('var hidden%s %s = %s\n' % (hn, hty, hexpr))
+            body.append('var %s %s = %s\n' % (hn[1:] if hn.startswith('@') else 'hidden' + hn, hty, hexpr))
         if plain and not body:
             return 'package %s\n\n%s%s' % (self.goname(pkg), self.imports(pkg, used), '\n'.join(plain))
         body += plain
